@@ -418,6 +418,13 @@ func elemArgs(thorough bool) []ref.Bits {
 			add(false, c, sh)
 			add(true, c, sh)
 		}
+		// ... and at every magnitude 10^-45..10^80: Log1p forms the integer 1+x (up to 192 bits wide) and the
+		// reductions of e^x scale by powers of ten, so the limit can be met at any decimal scale
+		for m := -45; m <= 80; m++ {
+			if thorough || m%2 == 0 || (m >= 36 && m <= 42) {
+				add(false, c, m-L)
+			}
+		}
 		// 1.0 + 0.0<prefix>
 		if L+2 <= 34 {
 			one := new(big.Int).Add(ref.Pow10(L+1), c)
